@@ -136,6 +136,8 @@ def fxbStep (st : FxbState) (tok : List String) : Option (FxbState × String) :=
       | .none => none
       | .delay d => pure ({ st with obj := .delay (d.changeRate fxbChain sr) }, "ok")
       | .reverb r => pure ({ st with obj := .reverb (r.init sr) }, "ok")
+  -- an oracle-only op (tween timing across block sizes, checked on the real code): nothing to mirror
+  | "twchk" :: _ => some (st, "ok")
   | ["start"] =>
       match st.obj with
       | .none => none
